@@ -498,6 +498,20 @@ func setEnv(c *Case) func() {
 	}
 }
 
+// failWriter - an io.Writer that fails: always, or after accepting a single byte of the first Write
+type failWriter struct {
+	mode int
+	n    int
+}
+
+func (w *failWriter) Write(p []byte) (int, error) {
+	w.n++
+	if w.mode == 2 && w.n == 1 && len(p) > 0 {
+		return 1, nil // a short write without an error
+	}
+	return 0, errors.New("write failed")
+}
+
 func runRealInner(c *Case, out *RealOut) {
 	os.Unsetenv("COMP_LINE")
 	os.Unsetenv("ZSHELL")
@@ -548,6 +562,9 @@ func runRealInner(c *Case, out *RealOut) {
 			root = rp.handles[0]
 		}
 		getoptions.Writer = &w
+	}
+	if c.BadWriter != 0 {
+		getoptions.Writer = &failWriter{mode: c.BadWriter}
 	}
 	argsCopy := append([]string(nil), c.Args...)
 	rem, err := root.Parse(c.Args)
